@@ -2,6 +2,10 @@
 
 Stage 0: replay corpus/C18/*.json through the oracle.
 Stage G: translate primitives/value.py (FP2Value, _modinv) -> coq/gen/G18_fp2.v           (tools/tr/tr_value.py)
+         translate the protocol code -> coq/gen/G18_proofs.v (tools/tr/tr_proofs.py): boudot EL/SQR create+check,
+         create_attest_pair, PengBaoPublicData.check, generate_response, boneh.decode, bonehexact create_challenge_response /
+         process_challenge_response / binary_relativity_match / _certainty, AttestationCommunity.on_challenge_response;
+         props/C18x.v proves gen_refines_hand_model for each and restates the theorems over the generated code
 Stage P: props/C18.v  (field arithmetic correct for all operands and moduli, equality decides fraction equality
          for prime moduli, field laws, intpow = power, modinv; decode.encode, homomorphism; the honest bit-pair
          round reconstructs binary_relativity in any order / subset, true value scores 1-2^-n, other profiles 0;
@@ -37,6 +41,9 @@ IMPORTS = ("From Coq Require Import ZArith List Bool QArith.\n"
            "From IPV8V Require Import lib.PyErr lib.Bytes model.M18_base gen.G18_fp2 model.M18_fexpr model.M18_hom "
            "model.M18_bitpairs model.M18_ser model.M18_range.\n"
            "Import ListNotations.\nOpen Scope Z_scope.\n")
+
+IMPORTS_GEN = IMPORTS.replace("model.M18_range.", "model.M18_range model.M18_gen_rt model.M18_driver gen.G18_proofs model.M18_gen_run.")
+HAVE_GEN = [False]
 
 COQ_EXN = {"AssertionError", "ZeroDivisionError", "TypeError", "ValueError", "IndexError", "KeyError", "StructError", "OutOfFuel",
            "RuntimeError"}
@@ -477,6 +484,14 @@ def stage_bitpairs(ctx, have_model):
         for i in mism[:10]:
             ctx.broke("correspondence: process_challenge_response sequence differs", tcases[i])
         ctx.coverage["traces_validated_against_impl"] += len(tcases) - len(mism)
+    if HAVE_GEN[0]:
+        mism, errs = coqrun.eval_mismatches(IMPORTS_GEN, "run_tally_gen", "res_eqb zlist_eqb", tcases, os.path.join(ctx.scratch, "talg"),
+                                            ctype="list Z * res (list Z)", shard=300)
+        for e in errs:
+            ctx.broke("model evaluation failed (translated process_challenge_response)", e)
+        for i in mism[:10]:
+            ctx.broke("correspondence: the TRANSLATED process_challenge_response differs from the implementation", tcases[i])
+        ctx.coverage["traces_validated_against_impl"] += len(tcases) - len(mism)
     # scores
     scases = []
     for i in range(500 if ctx.quick else 8000):
@@ -514,6 +529,15 @@ def stage_bitpairs(ctx, have_model):
             ctx.broke("model evaluation failed (scores)", e)
         for i in mism[:10]:
             ctx.broke("correspondence: binary_relativity_match/_certainty differ from the rational model", scases[i])
+        ctx.coverage["traces_validated_against_impl"] += len(scases) - len(mism)
+    if HAVE_GEN[0]:
+        mism, errs = coqrun.eval_mismatches(
+            IMPORTS_GEN, "(fun c : list Z * list Z * bool * Q * Q => let '(e, o, x, fm, fc) := c in check_scores_gen (e, o) x fm fc)",
+            "Bool.eqb", scases, os.path.join(ctx.scratch, "scg"), ctype="(list Z * list Z * bool * Q * Q) * bool", shard=250)
+        for e in errs:
+            ctx.broke("model evaluation failed (translated scores)", e)
+        for i in mism[:10]:
+            ctx.broke("correspondence: the TRANSLATED binary_relativity_match/_certainty differ from the implementation's floats", scases[i])
         ctx.coverage["traces_validated_against_impl"] += len(scases) - len(mism)
 
 
@@ -886,6 +910,46 @@ def cheating_attest_pair(PK, value, a, b, bitspace, r, variant):
     return PengBaoAttestation(pub, PengBaoCommitmentPrivate(m1, m2, m3, r1, r2, r3))
 
 
+def site_queues(log, v, a, b):
+    """the draws each _random_number call site of create_attest_pair consumed, rejected ones included"""
+    q = [[x] for x in log[:4]] + [[] for _ in range(4 - min(4, len(log)))]
+    rest = list(log[4:])
+    if len(log) < 4:
+        return q + [[], [], [], []]
+    w2 = log[3] * log[3]
+    mst = w2 * (v - a + 1) * (b - v + 1)
+    if mst < 0:
+        return q + [[], [], [], []]
+
+    def take(mod):
+        out = []
+        while rest:
+            d_ = rest.pop(0)
+            out.append(d_)
+            if mod == 0 or d_ % mod:
+                break
+        return out
+    k4 = int(math.sqrt(mst)) - 1
+    q4 = take(k4)
+    m4 = (q4[-1] % k4) if q4 and k4 else 0
+    q5 = take(mst - m4) if q4 and k4 and m4 else []
+    rst = w2 * ((b - v + 1) * log[0] + log[1]) + log[2] * log[2]
+    kr = rst // 2 - 1
+    ok5 = bool(q5) and (mst - m4) != 0 and q5[-1] % (mst - m4) != 0
+    q6 = take(kr) if ok5 else []
+    ok6 = bool(q6) and kr != 0 and q6[-1] % kr != 0
+    q7 = take(kr) if ok6 else []
+    return q + [q4, q5, q6, q7]
+
+
+def range_gen_case(v, a, b, a2, b2, s, t, ks, d, acc, cs):
+    """Coq case for run_range_gen: the generated builder reads the real queues of draws"""
+    base = range_model_case(v, a, b, a2, b2, s, t, acc, d.sec, cs)
+    tbl = base[base.rindex(", [") + 2:-1] if cs is not None else "[]"
+    rq = "[" + "; ".join(zl(q_) for q_ in site_queues(d.log, v, a, b)) + "]"
+    return "((%s, %s, %s, %s, %s, %s, %s, %s), %s, %s, %s)" % (cz(v), cz(a), cz(b), cz(a2), cz(b2), cz(s), cz(t), cz(ks), rq, zl(d.sec), tbl)
+
+
 def range_alg(a, b, ks=32):
     from ipv8.attestation.wallet.pengbaorange.algorithm import PengBaoRangeAlgorithm
     return PengBaoRangeAlgorithm("f", {"f": {"algorithm": "pengbaorange", "key_size": ks, "min": a, "max": b}})
@@ -909,7 +973,7 @@ def stage_range(ctx, have_model):
     from ipv8.attestation.wallet.primitives.structs import unpack_pair
     r = ctx.rng("range")
     nranges = 5 if ctx.quick else 24
-    cases, meta = [], []
+    cases, meta, gcases = [], [], []
     stats = {"inside": 0, "outside": 0, "float_sqrt_dev": 0, "forced": 0, "case_errors": 0}
 
     class NotProvable(Exception):
@@ -967,6 +1031,7 @@ def stage_range(ctx, have_model):
                         exp = [priv.m1, priv.m2, priv.m3, priv.r1, priv.r2, priv.r3, e0.c, e0.D, e0.D1, e0.D2, e1.c, e1.D, e1.D1, e1.D2,
                                e2.c, e2.D, e2.D1, e2.D2, x, y, u, w_, 1 if verdict else 0]
                         cases.append((range_model_case(v, a, b, a2, b2, s_, t_, acc, d.sec, (e0.c, e1.c, e2.c)), coq_res(("ok", exp))))
+                        gcases.append((range_gen_case(v, a, b, a2, b2, s_, t_, ks, d, acc, (e0.c, e1.c, e2.c)), coq_res(("ok", exp))))
                         meta.append(dict(case, a2=a2, b2=b2))
                 # tampered answers
                 s_, t_, _ = unpack_pair(challenges[0])
@@ -983,6 +1048,7 @@ def stage_range(ctx, have_model):
                     exp = [priv.m1, priv.m2, priv.m3, priv.r1, priv.r2, priv.r3, e0.c, e0.D, e0.D1, e0.D2, e1.c, e1.D, e1.D1, e1.D2,
                            e2.c, e2.D, e2.D1, e2.D2, x, y, u, w_, 1 if verdict else 0]
                     cases.append((range_model_case(v, a, b, a, b, s_, t_, acc, d.sec, (e0.c, e1.c, e2.c)), coq_res(("ok", exp))))
+                    gcases.append((range_gen_case(v, a, b, a, b, s_, t_, ks, d, acc, (e0.c, e1.c, e2.c)), coq_res(("ok", exp))))
                     meta.append(case)
             return acc_score, priv
 
@@ -1073,6 +1139,7 @@ def stage_range(ctx, have_model):
                         acc = {"r": lg[0], "ra": lg[1], "raa": lg[2], "w": lg[3], "m4": lg[4],
                                "m1": 0, "r1": 0, "r2": 0}
                         cases.append((range_model_case(vo, a, b, a, b, 40000, 50000, acc, [], None), coq_res(res)))
+                        gcases.append((range_gen_case(vo, a, b, a, b, 40000, 50000, ks, d, acc, None), coq_res(res)))
                         meta.append(case_o)
             except Exception:  # noqa: BLE001
                 import traceback
@@ -1105,6 +1172,7 @@ def stage_range(ctx, have_model):
                     ctx.broke("range case (degenerate draws): the builder refused value %d inside [%d, %d] before drawing" % (v, a, b), str(res))
                 if exact and len(d.log) >= 4:
                     cases.append((range_model_case(v, a, b, a, b, 40000, 50000, acc, d.sec, cs), coq_res(res)))
+                    gcases.append((range_gen_case(v, a, b, a, b, 40000, 50000, 32, d, acc, cs), coq_res(res)))
                     meta.append({"kind": "range-forced", "forced": forced, "a": a, "b": b, "v": v})
     ctx.extra["range_stats"] = stats
     if have_model and cases:
@@ -1117,6 +1185,16 @@ def stage_range(ctx, have_model):
             ctx.broke("correspondence: range proof construction/check differs between model and implementation",
                       json.dumps({"case": meta[i], "coq": cases[i][0][:1500], "impl": cases[i][1][:1500]}))
         ctx.coverage["traces_validated_against_impl"] += len(cases) - len(mism)
+    if HAVE_GEN[0] and gcases:
+        mism, errs = coqrun.eval_mismatches(IMPORTS_GEN, "run_range_gen", "res_eqb zlist_eqb", gcases, os.path.join(ctx.scratch, "rngg"),
+                                            ctype="((Z * Z * Z * Z * Z * Z * Z * Z) * list (list Z) * list Z * list (ev * ev * Z)) * res (list Z)",
+                                            shard=12, jobs=14)
+        for e in errs:
+            ctx.broke("model evaluation failed (translated range code)", e)
+        for i in mism[:10]:
+            ctx.broke("correspondence: range proof construction/check differs between the TRANSLATED code and the implementation",
+                      json.dumps({"coq": gcases[i][0][:1500], "impl": gcases[i][1][:1500]}))
+        ctx.coverage["traces_validated_against_impl"] += len(gcases) - len(mism)
 
 
 # =============================================================================== serialisation
@@ -1185,7 +1263,7 @@ def stage_ser(ctx, have_model):
 
 
 # =============================================================================== two real AttestationCommunity nodes
-async def community_run(hash_mode_fmt, value, others, cheat, r, delivery="inorder"):
+async def community_run(hash_mode_fmt, value, others, cheat, r, delivery="inorder", lock_cases=None):
     """Prover node 0 holds an attestation of `value`; verifier node 1 runs verify_attestation_values.
     cheat=None: honest prover.  cheat=bytes: the prover forges answers so that the profile of that value appears.
     delivery: how each burst of challenge responses reaches the verifier: inorder / reversed / random / dup
@@ -1195,7 +1273,84 @@ async def community_run(hash_mode_fmt, value, others, cheat, r, delivery="inorde
     from ipv8.test.mocking.endpoint import internet
     from ipv8.test.mocking.ipv8 import MockIPv8
     from ipv8.peer import Peer
+    # lockstep recorder: every call of the verifier's on_challenge_response with the state before / after, its
+    # random inputs and what it emitted, for the TRANSLATED handler (run_driver_gen) to reproduce
+    from ipv8.attestation.wallet.caches import PendingChallengeCache, ProvingAttestationCache
+    from ipv8.attestation.wallet.payload import ChallengePayload, ChallengeResponsePayload
+    from ipv8.lazy_community import lazy_wrapper
+    from ipv8.messaging.payload_headers import GlobalTimeDistributionPayload
+    orig_handler = AttestationCommunity.on_challenge_response
+    raw_handler = orig_handler.__wrapped__.__wrapped__
+    lock = {"verifier": None, "pc": None, "draw": None, "byte": None, "hq": [], "events": []}
+
+    def h2i(b_):
+        return int.from_bytes(b_, "big")
+
+    def alpha(ov):
+        if lock["pc"] is None:
+            for c_ in ov.request_cache._identifiers.values():
+                if isinstance(c_, ProvingAttestationCache):
+                    lock["pc"] = c_
+        pc = lock["pc"]
+        if pc is None or not isinstance(pc.relativity_map, dict) or sorted(pc.relativity_map) != [0, 1, 2, 3]:
+            return None
+        pend = [(c_.number, c_.honesty_check) for c_ in ov.request_cache._identifiers.values() if isinstance(c_, PendingChallengeCache)]
+        active = any(c_ is pc for c_ in ov.request_cache._identifiers.values())
+        return (pend, active, [h2i(h) for h in pc.hashed_challenges], [bytes(c_) for c_ in pc.challenges],
+                [pc.relativity_map[k] for k in range(4)])
+
+    def flat_state(st):
+        pend, active, hashed, chals, agg = st
+        out = [1 if active else 0, len(pend)] + [x for p_ in pend for x in p_] + [len(hashed)] + hashed + [len(chals)]
+        for c_ in chals:
+            out += [len(c_)] + list(c_)
+        return out + agg
+
+    def rec_raw(self, peer, dist, payload):
+        if self is not lock["verifier"] or lock_cases is None:
+            return raw_handler(self, peer, dist, payload)
+        pre = alpha(self)
+        if pre is None:
+            return raw_handler(self, peer, dist, payload)
+        lock.update(draw=None, byte=None, hq=[], events=[])
+        pc = lock["pc"]
+        cb0 = pc.attestation_callbacks
+        pc.attestation_callbacks = lambda h_, agg_: (lock["events"].append([0] + [agg_.get(k, 0) for k in range(4)]), cb0(h_, agg_))[1]
+        send0 = self.endpoint.send
+
+        def send(addr, packet):
+            if len(packet) > 22 and packet[22] == 3:
+                _, _, pl = self._ez_unpack_auth(ChallengePayload, packet)
+                lock["events"].append([3, len(pl.challenge)] + list(pl.challenge))
+            return send0(addr, packet)
+        self.endpoint.send = send
+        try:
+            raw_handler(self, peer, dist, payload)
+            res = "ok"
+        except Exception as e:  # noqa: BLE001
+            res = type(e).__name__
+        finally:
+            self.endpoint.send = send0
+            pc.attestation_callbacks = cb0
+        post = alpha(self)
+        known = pre[3] + lock["hq"]
+        tbl = "[" + "; ".join("(%s, %s)" % (zl(c_), cz(h2i(hashlib.sha1(c_).digest()))) for c_ in known) + "]"
+        case = "((%s, %s, %s, %s, %s), (%s, %s, %s, %s, %s), %s, %s)" % (
+            "[" + "; ".join("(%s, %s)" % (cz(a_), cz(b_)) for a_, b_ in pre[0]) + "]", "true" if pre[1] else "false", zl(pre[2]),
+            "[" + "; ".join(zl(c_) for c_ in pre[3]) + "]", zl(pre[4]),
+            cz(h2i(payload.challenge_hash)), zl(payload.response), "true" if lock["draw"] else "false", cz(lock["byte"] or 0),
+            "[" + "; ".join(zl(c_) for c_ in lock["hq"]) + "]", tbl, "true")
+        if res == "ok":
+            exp = flat_state(post) + [len(lock["events"])] + [x for ev_ in lock["events"] for x in ev_]
+            lock_cases.append((case, coq_res(("ok", exp))))
+        else:
+            lock_cases.append((case, coq_res(("exc", res))))
+            raise
+    AttestationCommunity.on_challenge_response = C.synchronized(
+        lazy_wrapper(GlobalTimeDistributionPayload, ChallengeResponsePayload)(rec_raw))
     nodes = [MockIPv8("curve25519", AttestationCommunity, settings=AttestationSettings(working_directory=":memory:")) for _ in range(2)]
+    AttestationCommunity.on_challenge_response = orig_handler
+    lock["verifier"] = nodes[1].overlay
     for nd_ in nodes:
         for other in nodes:
             if other is not nd_:
@@ -1219,7 +1374,11 @@ async def community_run(hash_mode_fmt, value, others, cheat, r, delivery="inorde
 
         @staticmethod
         def urandom(n):
-            return bytes([r.choice([0, 200, 250])]) if n == 1 else os.urandom(n)
+            if n != 1:
+                return os.urandom(n)
+            v = r.choice([0, 200, 250])
+            lock["draw"] = v < 38
+            return bytes([v])
     saved_os = C.os
     C.os = FakeOS()
     # get_id_algorithm builds a fresh algorithm object per call: observe / forge at class level
@@ -1234,6 +1393,21 @@ async def community_run(hash_mode_fmt, value, others, cheat, r, delivery="inorde
         calls.append(("honesty", ok))
         return ok
     BEA.process_honesty_challenge = spy
+    orig_choice = C.choice
+    orig_chc = BEA.create_honesty_challenge
+
+    def rec_choice(seq):
+        v = orig_choice(seq)
+        if list(seq) == [0, 1, 2]:
+            lock["byte"] = v
+        return v
+    C.choice = rec_choice
+
+    def rec_chc(self, PK, value_):
+        c_ = orig_chc(self, PK, value_)
+        lock["hq"].append(bytes(c_))
+        return c_
+    BEA.create_honesty_challenge = rec_chc
     honesty_seen["challenges_seen"] = []     # sha1 of every challenge the prover was asked to answer
     honesty_seen["aggregates"] = []          # the verifier's relativity map after each counted answer
     orig_proc = BEA.process_challenge_response
@@ -1307,6 +1481,8 @@ async def community_run(hash_mode_fmt, value, others, cheat, r, delivery="inorde
         BEA.process_honesty_challenge = orig_honesty
         BEA.create_challenge_response = orig_resp
         BEA.process_challenge_response = orig_proc
+        BEA.create_honesty_challenge = orig_chc
+        C.choice = orig_choice
         ep.send = orig_send
         for nd_ in nodes:
             nd_.overlay.request_cache.clear()
@@ -1368,6 +1544,7 @@ def stage_community(ctx):
     loop = asyncio.new_event_loop()
     asyncio.set_event_loop(loop)
     stats = {"honest": 0, "cheat": 0, "cheat_caught": 0, "honesty_checks": 0}
+    lock_cases = []
     try:
         plan = [("id_metadata", None, "inorder")] * (2 if ctx.quick else 10) + \
                [("id_metadata", None, d) for d in ("reversed", "random", "dup")] * (2 if ctx.quick else 12) + \
@@ -1391,7 +1568,7 @@ def stage_community(ctx):
                         if profile_of_int(hfun(c), bs) == rotated:
                             cheat = c
                             break
-            calls, hon = loop.run_until_complete(community_run(fmt, value, others, cheat, r, delivery))
+            calls, hon = loop.run_until_complete(community_run(fmt, value, others, cheat, r, delivery, lock_cases))
             stats["honesty_checks"] += hon["n"]
             stats[delivery] = stats.get(delivery, 0) + 1
             ctx.count(("community", fmt, value, cheat, delivery))
@@ -1403,7 +1580,23 @@ def stage_community(ctx):
                 stats["cheat_caught"] += 1 if caught else 0
     finally:
         loop.close()
+    stats["handler_calls_in_lockstep"] = len(lock_cases)
     ctx.extra["community_stats"] = stats
+    if ctx.quick and len(lock_cases) > 150:        # evenly spaced sample: keeps the quick tier's wall time
+        step_ = len(lock_cases) / 150.0
+        lock_cases = [lock_cases[int(i * step_)] for i in range(150)]
+    stats["handler_calls_evaluated_in_coq"] = len(lock_cases)
+    if HAVE_GEN[0] and lock_cases:
+        mism, errs = coqrun.eval_mismatches(
+            IMPORTS_GEN, "run_driver_gen", "res_eqb zlist_eqb", lock_cases, os.path.join(ctx.scratch, "drv"),
+            ctype="((list (Z * Z) * bool * list Z * list bytes * list Z) * (Z * bytes * bool * Z * list bytes) * list (bytes * Z) * bool) * res (list Z)",
+            shard=40, jobs=14)
+        for e in errs:
+            ctx.broke("model evaluation failed (translated on_challenge_response)", e)
+        for i in mism[:10]:
+            ctx.broke("correspondence: on_challenge_response differs between the TRANSLATED handler and the implementation (state before, "
+                      "answer, state after + effects)", json.dumps({"coq": lock_cases[i][0][:2500], "impl": lock_cases[i][1][:1500]}))
+        ctx.coverage["traces_validated_against_impl"] += len(lock_cases) - len(mism)
 
 
 # =============================================================================== corpus / replay
@@ -1621,9 +1814,22 @@ def run(ctx):
     except (tr_expr.Unsupported, Exception) as e:  # noqa: BLE001
         ctx.broke("translator tr_value aborted", e)
         text = None
+    try:
+        from tools.tr import tr_proofs
+        text2 = tr_proofs.write()
+        ctx.extra.setdefault("generated", {})["gen/G18_proofs.v"] = hashlib.sha256(text2.encode()).hexdigest()[:16]
+    except (tr_expr.Unsupported, Exception) as e:  # noqa: BLE001
+        ctx.broke("translator tr_proofs aborted", e)
+        text2 = None
     # stage P
     if text is not None:
         ctx.proofs()
+    if text2 is not None:
+        ctx.proofs(part="C18x")
+        okg, logg, _, _ = coqrun.make(["model/M18_gen_run.vo"])
+        HAVE_GEN[0] = bool(okg)
+        if not okg:
+            ctx.broke("the translated protocol code does not compile", logg[-3000:])
     ok, log, _, _ = coqrun.make(MODEL_VOS) if text is not None else (False, "", "", 0)
     have_model = bool(ok)
     if text is not None and not ok:
@@ -1631,7 +1837,9 @@ def run(ctx):
     ctx.coverage["trusted_base"] = [
         "Coq 8.16.1 kernel (coqc, vm_compute); no axioms (Print Assumptions: closed)",
         "translator tools/tr/tr_value.py (+ tr_expr.py): value.py -> gen/G18_fp2.v, re-run and re-proved on every run",
-        "hand models M18_bitpairs / M18_hom / M18_range / M18_ser, tied by this run's correspondence",
+        "translator tools/tr/tr_proofs.py: pengbaorange / bonehexact / community.on_challenge_response -> gen/G18_proofs.v; "
+        "props/C18x.v: the generated functions compute what the hand models compute (run-time vocabulary M18_gen_rt / M18_driver)",
+        "hand models M18_bitpairs / M18_hom / M18_range / M18_ser / M18_driver, tied by this run's correspondence",
         "hypotheses bgn_keypair / abelian_group (spec/S18_bgn.v) about the Weil-pairing group built by ec.py and "
         "boneh.get_good_wp/generate_keypair: abelian group, g of order n = t1*t2 with g^t1 of order exactly t2, "
         "h^t1 = 1, n | p+1, FP2Value.__eq__ decides group equality (the last is proved for fractions, prime p)",
